@@ -59,7 +59,8 @@ impl Quil for CircuitDefinition {
             write!(writer, ")")?;
         }
         for qubit_variable in &self.qubit_variables {
-            write!(writer, " {qubit_variable}")?;
+            write!(writer, " ")?;
+            super::qubit::write_qubit_variable(writer, qubit_variable)?;
         }
         writeln!(writer, ":")?;
         for instruction in &self.instructions {
